@@ -63,7 +63,7 @@ SEMANTIC_RULES = {
     "C06": {"R1", "R2", "R3", "R4", "R5", "R6v", "R8", "R8v", "R9v"},
     "C07": {"R1p", "R1s", "R1v", "R2", "R4", "R5v"},
     "C08": {"G2", "G6r", "G6v", "G8", "G8v", "G9"},
-    "C09": {"R4", "R5"},
+    "C09": {"R4", "R5", "R2v"},
     "C10": {"ENTRY", "PRIMv", "CLONEv", "STATE", "BACKEND", "FTYPE", "OWN", "IMM", "UPD"},
     "C11": {"R1", "R5", "R6", "R7", "R9"},
     "C13": {"UNIQ", "LCA", "SIZED", "CONST", "XMODEL", "CONSTREJ", "DET", "EXPRv"},
